@@ -25,6 +25,7 @@
 #include <stdio.h>
 #include <stdlib.h>
 #include <string.h>
+#include <sys/resource.h>
 #include <sys/types.h>
 #include <sys/uio.h>
 #include <unistd.h>
@@ -62,7 +63,11 @@ static void logline(const char *fmt, ...) {
     int n = vsnprintf(buf, sizeof buf, fmt, ap);
     va_end(ap);
     if (n > 0) {
-        if ((size_t)n > sizeof buf) n = sizeof buf;
+        if ((size_t)n >= sizeof buf) {
+            /* truncated by vsnprintf: keep one line per record */
+            n = sizeof buf - 1;
+            buf[n - 1] = '\n';
+        }
         ssize_t off = 0;
         while (off < n) {
             ssize_t w = real_write(logfd, buf + off, (size_t)(n - off));
@@ -72,15 +77,23 @@ static void logline(const char *fmt, ...) {
     }
 }
 
+static ssize_t (*real_readv)(int, const struct iovec *, int);
+static ssize_t (*real_writev)(int, const struct iovec *, int);
+
 static void resolve(void) {
-    if (real_read) return;
-    real_read = dlsym(RTLD_NEXT, "read");
+    /* real_read is published last: a second thread that sees it set sees all of them set */
+    if (__atomic_load_n(&real_read, __ATOMIC_ACQUIRE)) return;
     real_write = dlsym(RTLD_NEXT, "write");
     real_open = dlsym(RTLD_NEXT, "open");
     real_open64 = dlsym(RTLD_NEXT, "open64");
+    if (!real_open64) real_open64 = real_open;
     real_openat = dlsym(RTLD_NEXT, "openat");
     real_openat64 = dlsym(RTLD_NEXT, "openat64");
+    if (!real_openat64) real_openat64 = real_openat;
     real_close = dlsym(RTLD_NEXT, "close");
+    real_readv = dlsym(RTLD_NEXT, "readv");
+    real_writev = dlsym(RTLD_NEXT, "writev");
+    __atomic_store_n(&real_read, dlsym(RTLD_NEXT, "read"), __ATOMIC_RELEASE);
 }
 
 __attribute__((constructor)) static void init(void) {
@@ -90,11 +103,15 @@ __attribute__((constructor)) static void init(void) {
     dir_prefix = getenv("IOFAULT_DIR");
     dir_prefix_len = dir_prefix ? strlen(dir_prefix) : 0;
     if (logp) {
-        int (*op)(const char *, int, ...) = real_open64 ? real_open64 : real_open;
-        logfd = op(logp, O_WRONLY | O_CREAT | O_APPEND | O_CLOEXEC, 0644);
+        logfd = real_open64(logp, O_WRONLY | O_CREAT | O_APPEND | O_CLOEXEC, 0644);
         if (logfd >= 0 && logfd < 100) {
-            /* move out of the way of the fds the program will get */
-            int nfd = fcntl(logfd, F_DUPFD_CLOEXEC, 700);
+            /* move out of the way of the fds the program will get: to 700, or to the highest
+             * descriptor a lowered RLIMIT_NOFILE still allows */
+            int want = 700;
+            struct rlimit rl;
+            if (getrlimit(RLIMIT_NOFILE, &rl) == 0 && rl.rlim_cur != RLIM_INFINITY && rl.rlim_cur <= (rlim_t)want)
+                want = rl.rlim_cur > 4 ? (int)rl.rlim_cur - 1 : logfd;
+            int nfd = want > logfd ? fcntl(logfd, F_DUPFD_CLOEXEC, want) : -1;
             if (nfd >= 0) {
                 real_close(logfd);
                 logfd = nfd;
@@ -115,6 +132,7 @@ __attribute__((constructor)) static void init(void) {
                 entry_t e = {kind, arg};
                 if (which == 'r' && nrd < MAXE) rd[nrd++] = e;
                 else if (which == 'w' && nwr < MAXE) wr[nwr++] = e;
+                else if (which == 'r' || which == 'w') logline("! schedule longer than %d entries: the rest is ignored\n", MAXE);
                 else if (which == 'R') rd_default = e;
                 else if (which == 'W') wr_default = e;
             }
@@ -240,13 +258,23 @@ ssize_t write(int fd, const void *buf, size_t count) {
     return r;
 }
 
-/* Vectored I/O on an intercepted descriptor is served through the scalar path on the first
- * non-empty segment: a legal short transfer, and it keeps one schedule entry per call. */
+/* Vectored I/O on an intercepted descriptor consumes one schedule entry per call, like the
+ * scalar calls: a pass entry goes to the real readv/writev untouched; a size limit or an error
+ * is served through the scalar path on the first non-empty segment (a legal short transfer). */
 ssize_t readv(int fd, const struct iovec *iov, int iovcnt) {
     resolve();
-    if (!is_read_target(fd)) {
-        ssize_t (*real_readv)(int, const struct iovec *, int) = dlsym(RTLD_NEXT, "readv");
-        return real_readv(fd, iov, iovcnt);
+    if (!is_read_target(fd)) return real_readv(fd, iov, iovcnt);
+    int my = __atomic_load_n(&ird, __ATOMIC_SEQ_CST);
+    entry_t e = my < nrd ? rd[my] : rd_default;
+    if (e.kind == '-') {
+        __atomic_fetch_add(&ird, 1, __ATOMIC_SEQ_CST);
+        size_t total = 0;
+        for (int i = 0; i < iovcnt; i++) total += iov[i].iov_len;
+        ssize_t r = real_readv(fd, iov, iovcnt);
+        int saved = errno;
+        logline("r %d %zu -0 %zd %d\n", fd, total, r, r < 0 ? saved : 0);
+        errno = saved;
+        return r;
     }
     for (int i = 0; i < iovcnt; i++)
         if (iov[i].iov_len) return read(fd, iov[i].iov_base, iov[i].iov_len);
@@ -255,9 +283,18 @@ ssize_t readv(int fd, const struct iovec *iov, int iovcnt) {
 
 ssize_t writev(int fd, const struct iovec *iov, int iovcnt) {
     resolve();
-    if (!is_write_target(fd)) {
-        ssize_t (*real_writev)(int, const struct iovec *, int) = dlsym(RTLD_NEXT, "writev");
-        return real_writev(fd, iov, iovcnt);
+    if (!is_write_target(fd)) return real_writev(fd, iov, iovcnt);
+    int my = __atomic_load_n(&iwr, __ATOMIC_SEQ_CST);
+    entry_t e = my < nwr ? wr[my] : wr_default;
+    if (e.kind == '-') {
+        __atomic_fetch_add(&iwr, 1, __ATOMIC_SEQ_CST);
+        size_t total = 0;
+        for (int i = 0; i < iovcnt; i++) total += iov[i].iov_len;
+        ssize_t r = real_writev(fd, iov, iovcnt);
+        int saved = errno;
+        logline("w %d %zu -0 %zd %d\n", fd, total, r, r < 0 ? saved : 0);
+        errno = saved;
+        return r;
     }
     for (int i = 0; i < iovcnt; i++)
         if (iov[i].iov_len) return write(fd, iov[i].iov_base, iov[i].iov_len);
